@@ -35,6 +35,7 @@ def gen(r, tier, i):
         case = topo.gen_case(r, maxports=4)
         case['class'] = 'static'
         case['entry'] = r.choice(['parts', 'parts', 'composite', 'store', 'store_init'])
+        case['expand'] = r.random() < 0.4
         return case
     from vmon import structw
     return {'class': 'dynamic', 'cell_ts': r.choice([0.5, 1.0, 1.5, 0.75]), 'dir_as': r.choice(['process', 'step']),
@@ -138,20 +139,33 @@ def run_static(spec, V):
         node[mpath[-1]] = mtop
     try:
         entry = spec.get('entry', 'parts')
+        # store_schema may expand the hierarchy: a further child of every top-level glob store
+        extra_kw = {}
+        if spec.get('expand'):
+            ss = {}
+            for port, sub in schema.items():
+                t = tp.get(port)
+                if isinstance(sub, dict) and '*' in sub and isinstance(t, tuple) and t and t[-1].startswith('g') and \
+                        ppath[:-1] == () and len(t) == 1:
+                    star = sub['*']
+                    ss[t[-1]] = {'cz': ({'_default': 5, '_value': 5} if '_default' in star else
+                                        {k: {'_default': 5, '_value': 5} for k in star})}
+            if ss:
+                extra_kw['store_schema'] = ss
         if entry == 'parts':
-            e = Engine(processes=procs, steps=steps or None, topology=tops, initial_state=copy.deepcopy(init), display_info=False, emitter='null')
+            e = Engine(processes=procs, steps=steps or None, topology=tops, initial_state=copy.deepcopy(init), display_info=False, emitter='null', **extra_kw)
         else:
             from vivarium.core.composer import Composite
             if entry == 'composite':
                 e = Engine(composite=Composite({'processes': procs, 'steps': steps, 'topology': tops, 'state': copy.deepcopy(init)}),
-                           display_info=False, emitter='null')
+                           display_info=False, emitter='null', **extra_kw)
             elif entry == 'store':
                 c = Composite({'processes': procs, 'steps': steps, 'topology': tops})
-                e = Engine(store=c.generate_store({'initial_state': copy.deepcopy(init)}), display_info=False, emitter='null')
+                e = Engine(store=c.generate_store({'initial_state': copy.deepcopy(init)}), display_info=False, emitter='null', **extra_kw)
             else:
                 # the store is generated first; the initial state (which names the glob children) comes with the engine
                 c = Composite({'processes': procs, 'steps': steps, 'topology': tops})
-                e = Engine(store=c.generate_store({}), initial_state=copy.deepcopy(init), display_info=False, emitter='null')
+                e = Engine(store=c.generate_store({}), initial_state=copy.deepcopy(init), display_info=False, emitter='null', **extra_kw)
         holder['e'] = e
         e.update(2.0)
         V.check('no_exception', True)
